@@ -10,5 +10,9 @@ CONSTANTS
   Clk0s = {0, 1}
   MaxEv = 5
   FilterAverage = 20
+  Classes <- ClassesAll
+  StepAt = {}
+  MaxInDo = 0
+  EmitMinInDo = 0
 VIEW View
 INVARIANTS DoEqualsRule UnconfiguredRaw ResetEmpties WindowIsLastN TypeOK
